@@ -139,9 +139,34 @@ __CPROVER_assigns()
   return lastExit_local;
 }
 
+/* ---- which state object an invocation uses (dynamic single/multi group, adaptive): worker i of the bulk generator dereferences
+ * states.begin() advanced by the expression extracted from `std::advance(stateIt, static_cast<ptrdiff_t>(<e>))`, the calling thread (wait ==
+ * true) the one extracted from its own std::advance.  Worker i must get states[i], the caller states[numToLaunch]: pairwise distinct, and
+ * inside the numToLaunch + 1 states that initStates provides (skeleton unit). ---- */
+#define SITE_W(name) size_t name(size_t i, size_t numToLaunch) __CPROVER_requires(i < numToLaunch && numToLaunch < 9223372036854775807ul) __CPROVER_ensures(RV == i) __CPROVER_assigns()
+#define SITE_C(name) size_t name(size_t numToLaunch) __CPROVER_requires(numToLaunch < 9223372036854775807ul) __CPROVER_ensures(RV == numToLaunch) __CPROVER_assigns()
+SITE_W(SITE_dyn1_worker)
+#include "SITE_dyn1_worker.body.inc"
+SITE_C(SITE_dyn1_caller)
+#include "SITE_dyn1_caller.body.inc"
+SITE_W(SITE_dynM_worker)
+#include "SITE_dynM_worker.body.inc"
+SITE_C(SITE_dynM_caller)
+#include "SITE_dynM_caller.body.inc"
+SITE_W(SITE_adapt_worker)
+#include "SITE_adapt_worker.body.inc"
+SITE_C(SITE_adapt_caller)
+#include "SITE_adapt_caller.body.inc"
+
 #ifdef VERIF_CBMC
 void h_DYN_worker_single(void) { g_have_ticket = 0; g_claim_valid[0] = 0; g_claim_valid[1] = 0; g_exit_tickets = 0; g_exit_calls = 0; DYN_worker_single(); }
 void h_DYN_worker_multi(void) { g_have_ticket = 0; g_claim_valid[0] = 0; g_claim_valid[1] = 0; g_exit_counted = 0; g_block_freed = 0; g_block_read_late = 0; g_exit_calls_m = 0; DYN_worker_multi(); }
 void h_DYN_exitAction(void) { g_tail_runs = 0; g_dealloc = 0; size_type c; DYN_exitAction(c); }
 void h_DYN_lastExit(void) { DYN_lastExit(); }
+void h_SITE_dyn1_worker(void) { size_t i, n; SITE_dyn1_worker(i, n); }
+void h_SITE_dyn1_caller(void) { size_t n; SITE_dyn1_caller(n); }
+void h_SITE_dynM_worker(void) { size_t i, n; SITE_dynM_worker(i, n); }
+void h_SITE_dynM_caller(void) { size_t n; SITE_dynM_caller(n); }
+void h_SITE_adapt_worker(void) { size_t i, n; SITE_adapt_worker(i, n); }
+void h_SITE_adapt_caller(void) { size_t n; SITE_adapt_caller(n); }
 #endif
